@@ -47,6 +47,10 @@ class Harness:
         self.group = meta.get("group")
         self.args = meta.get("args", "").split()
         self.covers = meta.get("covers", "all")  # all | any | none
+        # per-loop unwind bounds: "regex=N; regex=N" matched against CBMC's loop listing
+        self.unwindset = [(x.rsplit("=", 1)[0].strip(), int(x.rsplit("=", 1)[1])) for x in meta.get("unwindset", "").split(";") if "=" in x]
+        # extra helper modules to mount: "file.rs@pocket-db/src/lmdb/mod.rs, ..."
+        self.also = [x.strip().split("@") for x in fmeta.get("also", "").split(",") if x.strip()]
 
     @property
     def pkg(self):
@@ -155,17 +159,22 @@ def make_workspace(run_dir, harnesses, extra_files=None):
     with open(os.path.join(ws, "Cargo.toml"), "w") as f:
         f.write(toml)
     mounted = set()
+    todo = []
     for h in harnesses:
-        key = (h.mount, h.file)
+        todo.append((h.mount, os.path.basename(h.file)))
+        for fn, mnt in h.also:
+            todo.append((mnt, fn))
+    for mount, fn in todo:
+        key = (mount, fn)
         if key in mounted:
             continue
         mounted.add(key)
-        target = os.path.join(ws, h.mount)
+        target = os.path.join(ws, mount)
         if not os.path.exists(target):
-            raise SystemExit2("mount point %s no longer exists in /repo" % h.mount)
+            raise SystemExit2("mount point %s no longer exists in /repo" % mount)
         with open(target, "a") as f:
-            f.write("\n#[cfg(kani)]\n%s\n#[path = \"%s\"]\nmod %s;\n"
-                    % (LINT_ALLOW, os.path.join(hdir, os.path.basename(h.file)), h.modname))
+            f.write("\n#[cfg(kani)]\n%s\n#[path = \"%s\"]\npub(crate) mod verif_%s;\n"
+                    % (LINT_ALLOW, os.path.join(hdir, fn), os.path.splitext(fn)[0]))
     return ws
 
 
@@ -279,9 +288,9 @@ def classify(h, rc, timed_out, text):
     if timed_out:
         res.update(status="inconclusive", reason="wall-clock cap %ds reached" % h.timeout)
         return res
-    oom = re.search(r"^Out of memory|std::bad_alloc|Cannot allocate memory|memory allocation of \d+ bytes failed", text, re.M)
-    if oom or re.search(r"CBMC failed with status", text):
-        res.update(status="inconclusive", reason=("memory cap %dGB reached" % h.mem) if oom else "CBMC aborted: " + re.search(r"CBMC failed with status.*", text).group(0))
+    oom = re.search(r"^Out of memory|std::bad_alloc|Cannot allocate memory|memory allocation of \d+ bytes failed|appears to have run out of memory", text, re.M)
+    if oom or re.search(r"CBMC failed with status|^CBMC failed$", text, re.M):
+        res.update(status="inconclusive", reason=("memory cap %dGB reached" % h.mem) if oom else "CBMC aborted")
         return res
     if p["verdict"] is None:
         if p["errors"]:
@@ -329,9 +338,68 @@ def classify(h, rc, timed_out, text):
     return res
 
 
+def harness_target(h, tgt):
+    """own target dir per harness (hard-linked copy of the warmed-up one): concurrent cargo
+    invocations would otherwise serialize on the build-directory lock for the per-harness compile"""
+    t = tgt + "-" + h.name
+    if not os.path.isdir(t):
+        if subprocess.call(["cp", "-al", tgt, t]) != 0:
+            shutil.rmtree(t, ignore_errors=True)
+            return tgt
+    return t
+
+
+def resolve_unwindset(h, ws, tgt, logdir):
+    """per-loop bounds: compile the harness, list its loops with `cbmc --show-loops`, and give every
+    loop whose listing matches one of the harness's regexes its bound (first match wins)."""
+    lp = os.path.join(logdir, h.name + ".codegen.log")
+    rc, to, wall = run_cmd(["cargo", "kani", "-p", h.pkg, "--only-codegen", "--harness", h.fq, "--exact",
+                            "--target-dir", tgt] + KANI_BASE[:4], ws, 1800, 24, lp)
+    if rc != 0:
+        return None
+    cands = []
+    for root, dirs, files in os.walk(tgt):
+        for fn in files:
+            if fn.endswith(h.name + ".out") and not fn.endswith(".symtab.out"):
+                cands.append(os.path.join(root, fn))
+    if not cands:
+        return None
+    goto = max(cands, key=os.path.getmtime)
+    try:
+        txt = subprocess.run(["cbmc", "--show-loops", goto], capture_output=True, text=True, timeout=600).stdout
+    except Exception:
+        return None
+    pairs = []
+    for m in re.finditer(r"^Loop (\S+):\n\s+(.*)$", txt, re.M):
+        lid, desc = m.group(1), m.group(2)
+        for rx, n in h.unwindset:
+            if re.search(rx, lid + " " + desc):
+                pairs.append("%s:%d" % (lid, n))
+                break
+    for rx, n in h.unwindset:  # library loops (added after codegen) are named literally
+        if re.fullmatch(r"[A-Za-z_][\w.]*\.\d+", rx):
+            pairs.append("%s:%d" % (rx, n))
+    return pairs
+
+
 def run_harness(h, ws, tgt, logdir):
     logpath = os.path.join(logdir, h.name + ".log")
-    rc, to, wall = run_cmd(kani_cmd(h, tgt), ws, h.timeout, h.mem, logpath)
+    tgt = harness_target(h, tgt)
+    extra = []
+    if h.unwindset:
+        pairs = resolve_unwindset(h, ws, tgt, logdir)
+        if pairs is None:
+            return {"harness": h.name, "status": "broken", "reason": "could not list loops for the per-loop unwind bounds",
+                    "stats": {}, "checks_total": 0, "checks_success": 0, "failed": [], "covers_sat": 0, "covers_total": 0,
+                    "wall_s": 0, "log": logpath}
+        if pairs:
+            extra = ["--cbmc-args", "--unwindset", ",".join(pairs)]
+    h_args = h.args
+    h.args = h_args + extra if extra else h_args
+    try:
+        rc, to, wall = run_cmd(kani_cmd(h, tgt), ws, h.timeout, h.mem, logpath)
+    finally:
+        h.args = h_args
     with open(logpath, errors="replace") as f:
         text = f.read()
     res = classify(h, rc, to, text)
@@ -354,10 +422,10 @@ class Scheduler:
 
         def work(h):
             with self.cv:
-                while self.n >= self.jobs or (self.n > 0 and self.mem + h.mem > MEM_BUDGET_GB):
+                while self.n >= self.jobs or (self.n > 0 and self.mem + h.mem / 2.0 > MEM_BUDGET_GB):
                     self.cv.wait()
                 self.n += 1
-                self.mem += h.mem
+                self.mem += h.mem / 2.0
             try:
                 t0 = time.time()
                 r = fn(h)
@@ -366,7 +434,7 @@ class Scheduler:
             finally:
                 with self.cv:
                     self.n -= 1
-                    self.mem -= h.mem
+                    self.mem -= h.mem / 2.0
                     self.cv.notify_all()
         with cf.ThreadPoolExecutor(max_workers=max(len(hs), 1)) as ex:
             futs = {ex.submit(work, h): h for h in hs}
@@ -406,7 +474,7 @@ def match_known(known, prop, hname, chk):
 def concrete_playback(h, ws, tgt, logdir, timeout):
     """re-run the failing harness with trace generation; kani adds the unit test in place."""
     logpath = os.path.join(logdir, h.name + ".playback-gen.log")
-    cmd = kani_cmd(h, tgt, ["-Z", "concrete-playback", "--concrete-playback=inplace"])
+    cmd = kani_cmd(h, harness_target(h, tgt), ["-Z", "concrete-playback", "--concrete-playback=inplace"])
     rc, to, wall = run_cmd(cmd, ws, timeout, h.mem + 4, logpath)
     src = os.path.join(ws, "verif_h", os.path.basename(h.file))
     text = open(src).read()
